@@ -187,6 +187,12 @@ def obligations(tier, rng):
         add('unless-sugar', f, 'out = ' + text(f), 'out = (x) unless[%d,%d] (y)' % (a, b))
     f = ('or', ('always', X), ('until', X, Y))
     add('unless-sugar', f, 'out = ' + text(f), 'out = (x) unless (y)')
+    # ... and with explicit, mixed and one-sided units (a, b in seconds = samples)
+    for a, b in [(1, 3), (0, 2)]:
+        f = ('or', ('always_t', X, 0, b), ('until_t', X, Y, a, b))
+        for itv in ['[%ds,%ds]' % (a, b), '[%ds,%dms]' % (a, b * 1000), '[%dms,%ds]' % (a * 1000, b), '[%d,%ds]' % (a, b),
+                    '[%d,%dms]' % (a * 1000, b * 1000)]:
+            add('unless-sugar-units', f, 'out = ' + text(f), 'out = (x) unless%s (y)' % itv)
     seen = set()
     res_ = [o for o in out if not (o['oid'] in seen or seen.add(o['oid']))]
     from .. import core as _core
